@@ -51,18 +51,30 @@ package job
 //@   requires rj != nil
 //@   ensures [C05,C06,C15] result == IsActive(rj)
 
-// ---- task_status.go (TEMPORARILY ASSUMED for callers; see C09/C11) ---------------------------------------------
-//@ extern func UpdateJobTaskRefs
-//@   params rj, tasks
-//@   fresh result
-//@   ensures result != nil && result.Name == rj.Name && result.Namespace == rj.Namespace && result.UID == rj.UID && result.Spec == rj.Spec
-//@        && result.Finalizers == rj.Finalizers && result.DeletionTimestamp == rj.DeletionTimestamp && result.Status.StartTime == rj.Status.StartTime
+// ---- task_status.go: UpdateJobTaskRefs ------------------------------------------------------------------------------
+// FilterTaskRefs applies a caller-supplied predicate (dynamic call): ASSUMED to return a sub-list
+//@ extern func FilterTaskRefs
+//@   params taskRefs, filter
+//@   ensures len(result) <= len(taskRefs)
+
+//@ func UpdateJobTaskRefs
+//@   tags C09, C11
+//@   requires rj != nil
+//@   modifies clock
+//@   ensures [C11] identity-kept: result != nil && fresh(result) && result.Name == rj.Name && result.Namespace == rj.Namespace && result.UID == rj.UID && result.Spec == rj.Spec
+//@        && execution.sameStrs(result.Finalizers, rj.Finalizers) && result.DeletionTimestamp == rj.DeletionTimestamp
+//@   ensures [C11] start-time-untouched: result.Status.StartTime == rj.Status.StartTime
+//@   ensures [C09] listed-tasks-never-forgotten: forall k int :: 0 <= k && k < len(rj.Status.Tasks) ==> hasRef(result.Status.Tasks, rj.Status.Tasks[k].Name)
+//@   ensures [C09] present-tasks-listed: forall j int :: 0 <= j && j < len(tasks) ==> hasRef(result.Status.Tasks, jobtasks.taskName(tasks[j]))
+//@   ensures [C11] created-counter-matches-list: result.Status.CreatedTasks == len(result.Status.Tasks)
+//@   ensures [C11] running-counter-bounded: 0 <= result.Status.RunningTasks && result.Status.RunningTasks <= len(result.Status.Tasks)
+//@   ensures [C11] cached-job-untouched: *rj == old(*rj)
 
 //@ extern func UpdateTaskRefDeletedStatusIfNotSet
 //@   params rj, taskName, status
 //@   fresh result
 //@   ensures result != nil && result.Name == rj.Name && result.Namespace == rj.Namespace && result.UID == rj.UID && result.Spec == rj.Spec
-//@        && result.Finalizers == rj.Finalizers && result.DeletionTimestamp == rj.DeletionTimestamp && result.Status.StartTime == rj.Status.StartTime
+//@        && execution.sameStrs(result.Finalizers, rj.Finalizers) && result.DeletionTimestamp == rj.DeletionTimestamp && result.Status.StartTime == rj.Status.StartTime
 //@        && len(result.Status.Tasks) == len(rj.Status.Tasks) && (forall k int :: 0 <= k && k < len(rj.Status.Tasks) ==> result.Status.Tasks[k].Name == rj.Status.Tasks[k].Name)
 
 // ---- task_status.go: GetTaskRef ---------------------------------------------------------------------------------------
